@@ -338,6 +338,24 @@ def check(col, prog, tier, profile, fixture=None):
                             col.ok("V1" + sfx, b.loc(bb, idx), "%s|single-byte-append" % fk(b), "room for one byte entailed; buf[end] <- byte; end += 1 (a second primitive appender, judged like write_bytes)")
                             continue
                         col.violation("V5" + sfx, "%s|stores-end" % fk(b), b.loc(bb, idx), "%s modifies the fill level of the buffer; only write_bytes and flush may (and it is not a one-byte append at the fill level: %s)" % (b.path, why1))
+    # a private helper that stores the fill level (`write_byte`) is judged inlined into every caller that is not itself a helper
+    hk = {h_.key for h_ in helpers}
+    end_helpers = set()
+    for h_ in helpers:
+        for bb, idx, s in h_.statements():
+            if s["k"] == "assign" and any(e[0] == "field" and e[1] == END and e[3] == "usize" for e in s["place"]["p"]) and any(e[0] == "deref" for e in s["place"]["p"]) and "Writer<" in h_.locals[s["place"]["l"]]["ty"]:
+                end_helpers.add(h_.key)
+    if end_helpers:
+        for b in crate.bodies:
+            if b.is_closure or b.key in hk or b.key in (wb.key, fl.key) or b.name == "new":
+                continue
+            if not any(x.key in end_helpers for x in util.helper_callees(crate, b, helpers)):
+                continue
+            why1 = _single_byte_append(b, helpers + [fl], BUF, END, cap)
+            if why1 is None:
+                col.ok("V1" + sfx, b.loc(), "%s|single-byte-append" % fk(b), "through a private appender: room for one byte entailed; buf[end] <- byte; end += 1")
+            else:
+                col.violation("V5" + sfx, "%s|stores-end" % fk(b), b.loc(), "%s modifies the fill level of the buffer through a private helper; only write_bytes and flush may (and it is not a one-byte append at the fill level: %s)" % (b.path, why1))
     col.ok("V5" + sfx, "-", "end-writers=%s" % ",".join(sorted(writers)), "end is stored only in %s" % sorted(writers))
 
     # ---------------- V6 / V7
